@@ -433,6 +433,11 @@ func synDump(src string) string {
 
 func runC11(c *Ctx) {
 	c.meta.Rule = "random expression trees of depth <= 6 (one third of them built to evaluate: paths rooted at the type name or the focus, criteria functions whose arguments mention the type name again, connectives) over all 13 precedence levels (invocation, indexer, polarity, multiplicative, additive incl. &, type, union, inequality, equality, membership, and, or/xor, implies), function arguments, indexers, quantities, dates, delimited and keyword identifiers; renderings: minimal parentheses, full parentheses, each with token-gap decorations from {'', ' ', newline, tab, block comment, line comment, doubled}; plus trailing tokens, byte-mutated sources and 38 sources in which a type operator is followed by a tighter operator, an indexer or an invocation (ANTLR treats it as a suffix), and 78 sources whose tokens touch (token boundaries); non-trivial = source with at least one operator; distinct by line"
+	nEv := 4000
+	if c.thorough {
+		nEv = 20000
+	}
+	evStream(c, nEv)
 	n := 500
 	if c.thorough {
 		n = 6000
